@@ -24,6 +24,16 @@ CHECKS = {
     technique="TLC explores every matching the nondeterministic matching/assignment steps of the TLA+ models may return and checks Certifies; matchings returned by the real functions are validated by TLC against the definitional cost rules",
     text="Bottleneck.tla with TrackMatching and Wasserstein.tla return ANY perfect matching of the threshold graph / ANY optimal assignment; CertifiesInv holds in every reachable final state. Matchings from persim.bottleneck / persim.wasserstein (hash seeds 0..2, thorough 0..31; sizes to 300 points for bottleneck) are checked row by row by TLC: each index exactly once, -1 conventions, placeholder index 0 for an empty diagram, row cost = the distance's own rule, max / sum = distance, same distance with and without matching.",
     note="Row indices refer to the diagram after infinite-death points were dropped (made explicit by the spec's Filter action). Wasserstein costs compared in fixed point with 1e-12/1e-9 tolerance; bottleneck costs exactly (half ticks)."),
+ "C05": dict(
+    cat="model_checking", ref="DESIGN.md 5/C05",
+    technique="TLA+ transcription of the mGH lower-bound loop and greedy upper-bound heuristic (nondeterministic permutation / first image) model-checked by TLC against the exact distance (min distortion over all maps); spec->code replay of all graph pairs and of the inner feasibility routine; recorded executions validated by TLC with an in-spec branch-and-bound oracle",
+    text="TLC checks LbSound in every state of the loop, UbSound and UbIsRealMap for every (permutation, first image) the RNG could draw, IsoZero, and the design lemma greedy-feasibility = existence of an injection, for all 1936 ordered pairs of connected labelled graphs on <=4 vertices (thorough: lower bound on <=5 vertices, 2.5M states). All those pairs and thousands of random connected graphs (<=7, thorough <=9 vertices exact; a focused campaign on pairs whose bound was raised above the trivial one; 10..40 vertices by counter-certificates) are run through persim.gromov_hausdorff over RNG seeds and sample-size orders; TLC recomputes shortest paths and the exact distance from the abstract graph and requires lb <= exact <= ub, half-integers and lb = 0 for verified isomorphisms. construct_mapping calls are recorded by wrapping and replayed through the spec's GreedyMap (algorithm layer).",
+    note="Exact oracle bounded (~9 vertices); beyond it only counter-certificate maps can raise an alarm and soundness rests on Theorems A/B of Oles et al. The pruning sort key is modelled without int8 wrap (n <= 11)."),
+ "C17": dict(
+    cat="model_checking", ref="DESIGN.md 5/C17",
+    technique="abstract-graph TLA+ specification (edges -> shortest paths -> components -> exact mGH) with containers as refinement mappings; TLC validates recorded calls under every container/labelling, collection calls and disconnected inputs; MGH.tla model-checked for the bounds themselves",
+    text="Every connected labelled graph on <=4 vertices under 14 containers (lists, tuples, dense int/float/bool, CSR/CSC/LIL/sparse array; upper, lower, symmetric) plus random graphs, relabellings, collections (symmetric, zero diagonal, every entry a bracket) and disconnected graphs (warning + bracket for a largest component, raising is a violation) are validated by TLC against the abstract graph; identical labelling => identical lower bound across containers; dtype boundaries (diameter 126..131, thorough to 300) against a one-point space use the closed form diam/2 (PointLemma model-checked) with a distance-matrix certificate verified by TLC.",
+    note="COO/DOK/DIA/BSR and non-contiguous views are refused by SciPy itself and excluded. Ties between largest components: any largest component is accepted."),
 }
 
 NOT_APPLICABLE_REASON = "check under construction in this round; see DESIGN.md section 5"
